@@ -291,6 +291,26 @@ def documented_not_checked(T):
                 ok = False
         if not ok and "migration-time" not in out:
             out.append("migration-time")
+    # "The population of any such ancestor matching source, if another migration does not intervene":
+    # read as population bookkeeping along the lineage of `node` on the segment, backwards in time:
+    # the lineage is in population[node] until its first migration, each migration leaves from where
+    # the previous one arrived, and the parent on the segment lives where the last migration arrived.
+    pop = [n[1] for n in T["nodes"]]
+    for k, (l, r, node, src, dst, t) in enumerate(T["migs"]):
+        same = [(m[5], j) for j, m in enumerate(T["migs"]) if j != k and m[2] == node and m[0] < r and l < m[1]]
+        before = [x for x in same if x < (t, k)]
+        after = [x for x in same if x > (t, k)]
+        ok = True
+        if before:
+            ok = T["migs"][max(before)[1]][4] == src
+        elif pop[node] != NULL:
+            ok = pop[node] == src
+        if ok and not after:
+            for el, er, p, c in T["edges"]:
+                if c == node and el < r and l < er and pop[p] != NULL and pop[p] != dst:
+                    ok = False
+        if not ok and "migration-population" not in out:
+            out.append("migration-population")
     return out
 
 
@@ -810,6 +830,14 @@ def run_gate(T, layout=None):
     if not had_index:
         after.pop("indexes")
     obs["unchanged"] = snapshot(after) == before
+    # TreeSequence.load_tables on a fresh copy of the same tables, without and with build_indexes
+    for key, flag in (("lt", False), ("lt_build", True)):
+        tcl = build_tc(T, layout)
+        try:
+            tsl = tskit.TreeSequence.load_tables(tcl, build_indexes=flag)
+            obs[key] = {"v": "ok", "num_trees": tsl.num_trees}
+        except Exception as e:   # noqa: BLE001
+            obs[key] = classify(e)
     # file path: the same tables written by dump() and read by tskit.load()
     tc2 = build_tc(T, layout)
     pre = None
@@ -1017,6 +1045,26 @@ class Gate(Family):
                 out.append(("load-rejected-valid:" + obs["load"]["err"], "valid tables rejected by load: %s" % obs["load"]["err"]))
         else:
             out.append(("load-wrong-exception:" + lv, "load rejection is not a LibraryError: %s" % obs["load"].get("msg")))
+        # TreeSequence.load_tables: the gate alone / the gate after an unconditional build_index
+        if "lt" in obs:
+            unindexed = T["index"] is None
+            v1 = obs["lt"]["v"]
+            if v1 == "ok" and (bad or unindexed):
+                out.append(("load_tables-accepted-invalid:" + (cls or "unindexed"), "load_tables accepted"))
+            elif v1 == "LibraryError" and not bad and not unindexed:
+                out.append(("load_tables-rejected-valid:" + obs["lt"]["err"], "load_tables rejected valid tables"))
+            elif v1 not in ("ok", "LibraryError"):
+                out.append(("load_tables-wrong-exception:" + v1, str(obs["lt"].get("msg"))))
+            N = copyT(T)
+            N["index"] = None
+            badn = valid_ts(N)
+            v2 = obs["lt_build"]["v"]
+            if v2 == "ok" and badn:
+                out.append(("load_tables-build-accepted-invalid:" + "+".join(sorted(badn)), "load_tables(build_indexes=True) accepted"))
+            elif v2 == "LibraryError" and not badn:
+                out.append(("load_tables-build-rejected-valid:" + obs["lt_build"]["err"], "load_tables(build_indexes=True) rejected"))
+            elif v2 not in ("ok", "LibraryError"):
+                out.append(("load_tables-build-wrong-exception:" + v2, str(obs["lt_build"].get("msg"))))
         if "load_raw" in obs:      # a file without an index is never a tree sequence ("the tables must be indexed")
             rv = obs["load_raw"]["v"]
             if rv == "ok":
@@ -1065,18 +1113,23 @@ class Gate(Family):
             if code is None:
                 return "false"
             exp = "(Err %s)" % cz(code)
-        # tree_sequence(): has_index() false -> build_index() (modelled, incl. its sort) -> gate
-        term = "res_eqb (tree_sequence_gate %s) %s" % (coq_tables(T), exp)
-        raw = obs.get("load_raw")
-        if raw is not None and raw["v"] in ("ok", "LibraryError"):
-            # tskit.load of the unindexed file: the gate alone (load_gate), error class included
-            if raw["v"] == "ok":
-                e2 = "(Ok %s)" % cz(raw["num_trees"])
-            else:
-                code = err_codes().get(raw["err"])
-                e2 = "(Err %s)" % cz(code) if code is not None else None
-            term = "false" if e2 is None else "(%s) && res_eqb (load_gate %s) %s" % (term, coq_tables(T), e2)
-        return term
+        # tree_sequence(): has_index() false -> build_index() (modelled, incl. its sort) -> gate;
+        # TreeSequence.load_tables without / with build_indexes; tskit.load of the unindexed file
+        def expected(o):
+            if o["v"] == "ok":
+                return "(Ok %s)" % cz(o["num_trees"])
+            code = err_codes().get(o["err"])
+            return None if code is None else "(Err %s)" % cz(code)
+
+        parts = ["res_eqb (tree_sequence_gate t) %s" % exp]
+        for key, fn in (("lt", "load_tables_gate false"), ("lt_build", "load_tables_gate true"), ("load_raw", "load_gate")):
+            o = obs.get(key)
+            if o is not None and o["v"] in ("ok", "LibraryError"):
+                e = expected(o)
+                if e is None:
+                    return "false"
+                parts.append("res_eqb (%s t) %s" % (fn, e))
+        return "let t := %s in %s" % (coq_tables(T), " && ".join(parts))
 
     def nontrivial(self, case, obs):
         T = case["T"]
@@ -1299,9 +1352,9 @@ class Big(Gate):
 FAMILIES = [Valid, Stream, F1Scope, Layout, Reuse, Big]
 
 NOT_COVERED = [
-    "migration source population matching the ancestors' population (documented, not checked by the gate, not evaluated "
-    "by the oracle); mutation.parent vs topology and migration time vs ancestry ARE evaluated and reported under "
-    "'documented-not-checked:' keys",
+    "provenance requirements of the docs (ISO-8601 timestamp, JSON record: 'should', not part of tree-sequence validity); "
+    "mutation.parent vs topology, migration time vs ancestry and migration population bookkeeping ARE evaluated and "
+    "reported under 'documented-not-checked:' keys",
     "TSK_ERR_BAD_OFFSET / ragged-offset corruption (not reachable through the Python API; the model includes check_offsets)",
     "allocation failure paths (TSK_ERR_NO_MEMORY), TSK_ERR_TREE_OVERFLOW (needs 2^31 trees)",
 ]
